@@ -1,6 +1,7 @@
 package main
 
 import (
+	"regexp"
 	"crypto/sha256"
 	"encoding/hex"
 	"encoding/json"
@@ -81,8 +82,33 @@ func overlayName(f string) string {
 	return filepath.Join(repoDir, "zz_verif_"+base)
 }
 
+var goLoopRe = regexp.MustCompile(`(?m)^(\s*)go ((?:a|assoc)\.(?:readLoop|writeLoop|timerLoop))\(\)$`)
+
+// patchedSources returns overlay replacements of repository files, regenerated from
+// the working tree on every run: the statements that start the association's
+// background loops are routed through vGo (a no-op in harness runs), so that native
+// replays are as sequential as the symbolic execution, which never runs goroutines.
+func patchedSources() map[string][]byte {
+	out := map[string][]byte{}
+	for _, f := range []string{"association.go"} {
+		path := filepath.Join(repoDir, f)
+		b, err := os.ReadFile(path)
+		if err != nil {
+			continue
+		}
+		nb := goLoopRe.ReplaceAll(b, []byte("${1}vGo(${2})"))
+		if string(nb) != string(b) {
+			out[path] = nb
+		}
+	}
+	return out
+}
+
 func loadProgram(extra map[string][]byte) (*ssa.Program, *ssa.Package, error) {
 	overlay := map[string][]byte{}
+	for k, v := range patchedSources() {
+		overlay[k] = v
+	}
 	for _, f := range harnessFiles() {
 		if strings.HasSuffix(f, "_test.go") {
 			continue
@@ -484,6 +510,11 @@ func runNative(cases []nativeCase, names []string, tag string) ([]nativeOut, str
 	reg := filepath.Join(buildDir, "registry.go")
 	os.WriteFile(reg, []byte(sb.String()), 0o644)
 	repl := map[string]string{filepath.Join(repoDir, "zz_verif_registry.go"): reg}
+	for path, content := range patchedSources() {
+		pf := filepath.Join(buildDir, "patched_"+filepath.Base(path))
+		os.WriteFile(pf, content, 0o644)
+		repl[path] = pf
+	}
 	for _, f := range harnessFiles() {
 		repl[overlayName(f)] = f
 	}
